@@ -959,7 +959,7 @@ func (d *DFA) findWithPrefilterAt(cache *DFACache, haystack []byte, startAt int)
 	// Get start state based on look-behind context at candidate position
 	currentState := d.getStartStateForUnanchored(cache, haystack, pos)
 	if currentState == nil {
-		return d.nfaFallback(haystack, 0)
+		return d.nfaFallback(haystack, startAt)
 	}
 
 	// Track last match position for leftmost-longest semantics
@@ -981,7 +981,7 @@ func (d *DFA) findWithPrefilterAt(cache *DFACache, haystack []byte, startAt int)
 				pos = candidate
 				newStart := d.getStartStateForUnanchored(cache, haystack, pos)
 				if newStart == nil {
-					return d.nfaFallback(haystack, 0)
+					return d.nfaFallback(haystack, startAt)
 				}
 				sid = newStart.id
 				ft = cache.flatTrans
@@ -1006,21 +1006,21 @@ func (d *DFA) findWithPrefilterAt(cache *DFACache, haystack []byte, startAt int)
 		case InvalidState:
 			currentState = cache.getState(sid)
 			if currentState == nil {
-				return d.nfaFallback(haystack, 0)
+				return d.nfaFallback(haystack, startAt)
 			}
 			nextState, err := d.determinize(cache, currentState, haystack[pos])
 			if err != nil {
 				if isCacheCleared(err) {
 					newStart := d.getStartStateForUnanchored(cache, haystack, pos)
 					if newStart == nil {
-						return d.nfaFallback(haystack, 0)
+						return d.nfaFallback(haystack, startAt)
 					}
 					sid = newStart.id
 					ft = cache.flatTrans
 					ftLen = len(ft)
 					continue
 				}
-				return d.nfaFallback(haystack, 0)
+				return d.nfaFallback(haystack, startAt)
 			}
 			if nextState == nil {
 				// Dead state — prefilter skip
@@ -1035,7 +1035,7 @@ func (d *DFA) findWithPrefilterAt(cache *DFACache, haystack []byte, startAt int)
 				pos = candidate
 				newStart := d.getStartStateForUnanchored(cache, haystack, pos)
 				if newStart == nil {
-					return d.nfaFallback(haystack, 0)
+					return d.nfaFallback(haystack, startAt)
 				}
 				sid = newStart.id
 				ft = cache.flatTrans
@@ -1059,7 +1059,7 @@ func (d *DFA) findWithPrefilterAt(cache *DFACache, haystack []byte, startAt int)
 			pos = candidate
 			newStart := d.getStartStateForUnanchored(cache, haystack, pos)
 			if newStart == nil {
-				return d.nfaFallback(haystack, 0)
+				return d.nfaFallback(haystack, startAt)
 			}
 			sid = newStart.id
 			ft = cache.flatTrans
